@@ -107,6 +107,13 @@ class GlobalState(object):
                         defaults.append((v, copy.deepcopy(v)))
                     except Exception:
                         pass
+                elif type(v).__module__ in MODULES and hasattr(v, '__dict__'):
+                    # an object of the library as a default value (evaluated once, shared by
+                    # every call): its attributes are process-global state as well
+                    try:
+                        defaults.append((v.__dict__, copy.deepcopy(v.__dict__)))
+                    except Exception:
+                        pass
         return names, muts, defaults
 
     def reset(self):
